@@ -22,7 +22,10 @@ import gen
 
 PROOF_MODULES = ["UnytProofs.C18", "UnytProofs.C18Equiv", "UnytProofs.C18Reuse"]
 HARNESS = os.path.dirname(os.path.abspath(__file__))
-PLUGINS = ("c18", "c17_dtype", "c09_equiv", "c01_ufuncs", "c04_ufuncs", "c10_systems")
+PLUGINS = ("c18",)
+# tables of other properties this model reads: refreshed best-effort (their own checks own them; a
+# plugin of another property that no longer recognises the source must not fail THIS check)
+FOREIGN_PLUGINS = ("c17_dtype", "c09_equiv", "c01_ufuncs", "c04_ufuncs", "c10_systems")
 
 RULE = ("distinct = (section, route/function, variant, dtype class, shape class, fault kind) tuples "
         "executed on the real library with full before/after snapshots")
@@ -120,6 +123,36 @@ EQUIV = [("K", "J", "thermal", {}, "valid"), ("J", "K", "thermal", {}, "valid"),
          ("g*m/cm", "erg", "mass_energy", {}, "reducible-unit")]
 
 
+def equivalence_branch_specs():
+    """EVERY ordered (equivalence, from-dimension -> to-dimension) branch of the live
+    `equivalence_registry` (32 on this tree; cross-checked against C09's regenerated table) × every
+    copying spelling and the in-place ones × operands that are views of a guard buffer (contiguous,
+    strided 2-d, 0-d).  Always executed in full, in both tiers: it is the only place where a copy-mode
+    chain that writes into its input (`out=x`, or `out=` a temporary that IS the input) shows."""
+    from unyt.equivalencies import equivalence_registry
+    from unyt.unit_systems import cgs_unit_system, mks_unit_system
+
+    specs = []
+    for name, cls in equivalence_registry.items():
+        dims = list(cls._dims)
+        for a in dims:
+            for b in dims:
+                if a == b:
+                    continue
+                # two spellings of the operand's unit (SI and CGS base), the target in SI
+                for usys in (mks_unit_system, cgs_unit_system):
+                    u, t = str(usys[a]), str(mks_unit_system[b])
+                    for sh in SHAPES:
+                        for dt in ("float64", "int64"):
+                            if dt == "int64" and (sh != "1d" or usys is cgs_unit_system):
+                                continue
+                            for route in ("to_equivalent", "to", "in_units", "to_value", "convert_to_equivalent",
+                                          "convert_to_units"):
+                                specs.append(dict(route=route, unit=u, target=t, equivalence=name, kwargs={}, dtype=dt,
+                                                  shape=sh, ro=False, fault="valid", branch=f"{name}:{a}->{b}", keep=True))
+    return specs
+
+
 def conversion_specs(tier, rng):
     dts = DTYPES_T if tier == "thorough" else DTYPES_Q
     specs = []
@@ -204,7 +237,7 @@ def conversion_specs(tier, rng):
             if seen[k] <= 2 or rng.random() < 0.22:
                 keep.append(sp)
         specs = keep
-    return specs
+    return specs + equivalence_branch_specs()
 
 
 class _Sub(np.ndarray):
@@ -361,6 +394,15 @@ def core_model_errs():
 
 def run_conversions(chk, M, tier):
     specs = conversion_specs(tier, chk.rng)
+    branches = sorted({sp["branch"] for sp in specs if sp.get("branch")})
+    chk.extra["equivalence_branches_swept"] = len(branches)
+    try:
+        J9 = json.load(open(os.path.join(core.BUILD, "extract_c09_equiv_formulas.json"), encoding="utf-8"))
+        n9 = sum(len(e["branches"]) for e in J9["equivalences"])
+        if n9 != len(branches):
+            chk.disagree("c18.equiv-branches", f"the sweep visits {len(branches)} branches, C09's regenerated table has {n9}")
+    except (OSError, KeyError, ValueError):
+        chk.count("conv:c09-table-unavailable")
     lines, idx, results = [], [], []
     for sp in specs:
         obs = V.run_case(sp)
@@ -519,7 +561,7 @@ def ufunc_specs(tier, rng):
 # later (e.g. `_floor_divide_units`) is exercised by the direct oracle only until that model follows
 MODELLED_RULES = {"_preserve_units", "_difference_units", "_multiply_units", "_divide_units", "_return_without_unit",
                   "_passthrough_unit", "_power_unit", "_sqrt_unit", "_cbrt_unit", "_square_unit", "_reciprocal_unit",
-                  "_arctan2_unit", "_comparison_unit", "_invert_units", "_bitop_units"}
+                  "_arctan2_unit", "_comparison_unit", "_invert_units", "_bitop_units", "_floor_divide_units"}
 
 
 def ufunc_wire(E, sp):
@@ -696,8 +738,13 @@ WITNESSES = [
           rule="_multiply_units", nin=2),
      "ufunc|_multiply_units|out=|offset-operand|raised-InvalidUnitOperation|numbers", False),
     ("int_out_retyped_counterexample", "ufunc",
-     dict(ufunc="add", form="out-self", a=_un("m", "int64"), b=_un("s", "int64"), fault="incommensurable", rule="_preserve_units", nin=2),
+     dict(ufunc="add", form="out-self", a=_un("m", "int64"), b=_un("cm", "int64", shape="bad"), fault="bad-shape",
+          rule="_preserve_units", nin=2),
      "ufunc|out=|int-retyped-on-failure", False),
+    # fixed by 5bfd46b (C01-04): a refusal by the unit checks leaves an integer out= alone
+    ("unit_refusal_leaves_integer_out_alone", "ufunc",
+     dict(ufunc="add", form="out-self", a=_un("m", "int64"), b=_un("s", "int64"), fault="incommensurable", rule="_preserve_units", nin=2),
+     None, False),
 ]
 
 
@@ -727,6 +774,9 @@ def run_witnesses(chk):
 
 def run(tier, seed):
     chk = core.Check("C18", tier, seed)
+    for fp in FOREIGN_PLUGINS:
+        _status, xerr = core.run_extract((fp,))
+        chk.count("foreign-table-refresh:" + fp + (":failed" if xerr else ":ok"))
     chk.proof = core.prove("C18", PROOF_MODULES, extra_targets=("drv_c18",), plugins=PLUGINS, tier=tier)
     try:
         X = json.load(open(os.path.join(core.BUILD, "extract_c18_order.json"), encoding="utf-8"))
